@@ -109,6 +109,23 @@ class BigQueryModel(data_algebra.db_model.DBModel):
     """A model of how SQL should be generated for BigQuery
     connection should be google.cloud.bigquery.client.Client"""
 
+    string_backslash_escapes = True
+
+    def quote_identifier(self, identifier: str) -> str:
+        """
+        Quote identifier (BigQuery reads backslash escapes inside quoted identifiers).
+        """
+        assert isinstance(identifier, str)
+        if self.identifier_quote in identifier:
+            raise ValueError(
+                "did not expect " + self.identifier_quote + " in identifier"
+            )
+        return (
+            self.identifier_quote
+            + identifier.replace("\\", "\\\\")
+            + self.identifier_quote
+        )
+
     def __init__(self, *, table_prefix: Optional[str] = None):
         data_algebra.db_model.DBModel.__init__(
             self,
